@@ -10,7 +10,7 @@ mkdir -p $V/build/seedmatrix /tmp/sm
 one() {
   id=$1; tier=$2; V=$3
   d=/tmp/sm/$id
-  prop=$(python3 -c "import json,sys;print(json.load(open('$V/seeded/$id/meta.json'))['property'])")
+  prop=${PROP:-$(python3 -c "import json,sys;print(json.load(open('$V/seeded/$id/meta.json'))['property'])")}
   git -C /repo worktree remove --force $d/repo >/dev/null 2>&1; rm -rf $d; mkdir -p $d
   git -C /repo worktree add --detach $d/repo HEAD >/dev/null 2>&1 || { echo "$id $prop worktree-failed"; return; }
   if ! git -C $d/repo apply $V/seeded/$id/patch.diff 2>$d/apply.err; then
